@@ -199,6 +199,9 @@ func main() {
 	}
 	rate, _ := strconv.ParseFloat(cfg["rate"], 64)
 	for _, o := range setup {
+		if rate > 0 {
+			s.VerifSetFlushRate(1e18) // nobody flushes during the sequential setup: keep its writers off the waiting path
+		}
 		exec(s, o)
 	}
 	if rate > 0 {
